@@ -137,7 +137,10 @@ system: for a live handle `h` of a set of the arena that is alive, whose set obj
 can reach (`Accessible`: strongly reachable from the root, or held by the running callback, or
 readable from such an object) — the stashed object is accessible too, and it and everything strongly
 reachable from it is allocated, undestructed and not condemned by the running sweep.  If `x` is
-strongly reachable from the root alone, so is the stashed object. -/
+strongly reachable from the root alone, so is the stashed object.  The statement does not look at the
+payload: `stash` = backward barrier on the set object + licensed raw store, unconditionally in the
+stashed object's `Collect::NEEDS_TRACE` (a leaf needs no tracing but still has to be marked; the tie
+stashes leaf payloads — `require_static` struct, `Static<_>`, `Rc<_>`, zero-sized — into black sets). -/
 def stashed_survives_while_handle_statement : Prop :=
   ∀ (n : Nat) (ops : List GOp) (S : GSys), S = (GSys.init n).run ops →
   ∀ (h : Handle) (rs : RootSet) (x : Nat), h ∈ S.d.handles → S.d.liveSet h.set = some rs →
